@@ -5,9 +5,11 @@
    kind 3: type_ok eptag <LP text> ntab (<LP zbytes> flag <LP inflated bytes>)..      -> result of try_from on that service (eptag 1 = single url)
    kind 4: nsvc (d r f type_ok bitmapflag <LP set>).. nops (op qd? qf? <LP idxs>).. ntab (<LP rbytes> <LP zbytes>)..
            op 0 revoke, 1 unrevoke; after every op: ok flag, then per service the result of resolving it by its own id
+   kind 5: type_ok propkind <LP prop> idkind <LP query> id_ok n (<LP decoded index value>).. <LP set> i
+           -> try_from (0 index | 1), check_status over a service holding the set (0 valid 1 revoked 2 invalid status), new(i) accepted (0 i | 1)
    result = 0 n digest | 1           digest = all members when n <= 64, else sum-mod-2^61 first last *)
 From Coq Require Import List ZArith NArith Bool.
-From IdV Require Import Lib.Wire Lib.Base64 Doc.Doc Cred.Bitmap Cred.Roaring Run.C04Run Run.C07Run Run.C02Run.
+From IdV Require Import Lib.Wire Lib.Base64 Doc.Doc Cred.Bitmap Cred.Roaring Cred.BitmapStatus Run.C04Run Run.C07Run Run.C02Run.
 Import ListNotations.
 Open Scope Z_scope.
 
@@ -64,6 +66,14 @@ Definition c06_run (input : list Z) : list Z :=
     else if k =? 4 then
       match (sv <- rlist rsvc4 ;; ops <- rlist rop4 ;; tab <- rlist rtab4 ;; ret (sv, ops, tab)) l with
       | Some ((sv, ops, tab), _) => c06_kind4 sv ops tab
+      | None => ERR_DECODE end
+    else if k =? 5 then
+      match (t <- rb ;; pk <- rz ;; p <- rlp ;; idk <- rz ;; q <- rlp ;; idok <- rb ;; vals <- rlist rlp ;; s <- rlp ;; i <- rz ;; ret (t, pk, p, idk, idok, vals, s, i)) l with
+      | Some ((t, pk, p, idk, idok, vals, s, i), _) =>
+          let st := {| bst_type_ok := t; bst_prop := if pk =? 0 then IpAbsent else if pk =? 1 then IpNotString else IpStr p; bst_query_index := vals |} in
+          (match status_try_from st with Some n => [0; Z.of_N n] | None => [1] end)
+          ++ [Z.of_N (status_check st idok s)]
+          ++ (match status_try_from (status_new (Z.to_N i)) with Some n => [0; Z.of_N n] | None => [1] end)
       | None => ERR_DECODE end
     else ERR_DECODE
   | [] => ERR_DECODE end.
